@@ -347,6 +347,8 @@ def apply_reference(repo):
             _drop_self_assignments(repo.funcs[q].node)
             _thread_none_tests(repo.funcs[q].node)
     repo.inlined_local_functions = inline_local_functions(repo, ref)
+    repo.suppress_forms = suppress_to_try(repo, ref)
+    repo.records = expand_records(repo, ref)
     repo.struct_objects = expand_struct_objects(repo, ref)
     repo.star_forms = expand_star_forms(repo, ref)
     repo.unrolled_tables = unroll_constant_tables(repo, ref)
@@ -1214,6 +1216,156 @@ def inline_new_temporaries(repo, ref):
                 if progress:
                     break
     return folded
+
+
+def _fresh_stmt(src, like, owner):
+    out = ast.parse(src).body
+    for top in out:
+        for y in ast.walk(top):
+            ast.copy_location(y, like)
+            for z in ast.iter_child_nodes(y):
+                z._parent = y
+        top._parent = owner
+    return out
+
+
+def suppress_to_try(repo, ref):
+    """with contextlib.suppress(E1, E2): B    is    try: B  except (E1, E2): pass    (the context manager's exit swallows exactly
+    the exceptions an except clause with those classes would catch, and nothing else happens on entry or exit)"""
+    done = {}
+    for q, fi in repo.funcs.items():
+        if fi.is_lambda or q not in ref:
+            continue
+        for owner, field, blk in _blocks(fi.node):
+            for i, st in enumerate(blk):
+                if not (isinstance(st, ast.With) and len(st.items) == 1 and st.items[0].optional_vars is None and isinstance(st.items[0].context_expr, ast.Call)):
+                    continue
+                c = st.items[0].context_expr
+                if ast.unparse(c.func) not in ("contextlib.suppress", "suppress") or c.keywords or not c.args \
+                        or not all(_chain(a_) is not None for a_ in c.args):
+                    continue
+                typ = ast.unparse(c.args[0]) if len(c.args) == 1 else "(%s)" % ", ".join(ast.unparse(a_) for a_ in c.args)
+                new = _fresh_stmt("try:\n    pass\nexcept %s:\n    pass" % typ, st, owner)[0]
+                new.body = st.body
+                for b_ in new.body:
+                    b_._parent = new
+                blk[i] = new
+                _invalidate(owner)
+                done.setdefault(q, []).append(typ)
+    return done
+
+
+def expand_records(repo, ref):
+    """T = namedtuple("T", [f1 .. fn]) at module level (bound once).  In a function, a new local x bound once by
+    `x = T(a1 .. an)` (every field given, positionally or by keyword) or by `x = T._make(struct.unpack(<format of n values>, d))`
+    and otherwise only read as x.fi, x[<constant i>] or *x in a call is n locals x__f1 .. x__fn: the record is only a name for
+    the n values (a tuple is immutable and nothing else sees the object)."""
+    import struct as _struct
+    done = {}
+    for m in repo.modules.values():
+        types = {}
+        counts = {}
+        for st in m.tree.body:
+            for x in ast.walk(st) if not isinstance(st, (ast.FunctionDef, ast.AsyncFunctionDef, ast.ClassDef)) else []:
+                if isinstance(x, ast.Name) and isinstance(x.ctx, (ast.Store, ast.Del)):
+                    counts[x.id] = counts.get(x.id, 0) + 1
+        for st in m.tree.body:
+            if isinstance(st, ast.Assign) and len(st.targets) == 1 and isinstance(st.targets[0], ast.Name) and isinstance(st.value, ast.Call) \
+                    and ast.unparse(st.value.func) in ("namedtuple", "collections.namedtuple") and len(st.value.args) == 2 and not st.value.keywords \
+                    and counts.get(st.targets[0].id) == 1:
+                f = st.value.args[1]
+                names = None
+                if isinstance(f, (ast.List, ast.Tuple)) and all(isinstance(e, ast.Constant) and isinstance(e.value, str) for e in f.elts):
+                    names = [e.value for e in f.elts]
+                elif isinstance(f, ast.Constant) and isinstance(f.value, str):
+                    names = f.value.replace(",", " ").split()
+                if names and all(n_.isidentifier() and not n_.startswith("_") for n_ in names) and len(set(names)) == len(names):
+                    types[st.targets[0].id] = names
+        if not types:
+            continue
+        for q, fi in repo.funcs.items():
+            if fi.is_lambda or q not in ref or fi.module is not m:
+                continue
+            ref_locals = {n for n, _ in ref[q]["locals"]} | set(ref[q]["params"])
+            nested = _nested_uses(fi.node)
+            own_names = {x.id for x in ast.walk(fi.node) if isinstance(x, ast.Name)} | {a_.arg for a_ in ast.walk(fi.node) if isinstance(a_, ast.arg)}
+            if any(isinstance(x, ast.Name) and x.id in types and isinstance(x.ctx, (ast.Store, ast.Del)) for x in ast.walk(fi.node)):
+                continue
+            for owner, field, blk in _blocks(fi.node):
+                for i, st in enumerate(list(blk)):
+                    if not (isinstance(st, ast.Assign) and len(st.targets) == 1 and isinstance(st.targets[0], ast.Name) and isinstance(st.value, ast.Call)):
+                        continue
+                    x = st.targets[0].id
+                    if x in nested or x in fi.params:
+                        continue
+                    c = st.value
+                    fields = None
+                    srcs = None
+                    if isinstance(c.func, ast.Name) and c.func.id in types:
+                        fields = types[c.func.id]
+                        if any(isinstance(a_, ast.Starred) for a_ in c.args) or any(k.arg is None for k in c.keywords) or len(c.args) > len(fields):
+                            continue
+                        given = dict(zip(fields, c.args))
+                        bad = False
+                        for k in c.keywords:
+                            if k.arg not in fields or k.arg in given:
+                                bad = True
+                            given[k.arg] = k.value
+                        if bad or set(given) != set(fields):
+                            continue
+                        order = fields[:len(c.args)] + [k.arg for k in c.keywords]       # evaluation order as written
+                        srcs = ["%s__%s = %s" % (x, f_, ast.unparse(given[f_])) for f_ in order]
+                    elif isinstance(c.func, ast.Attribute) and c.func.attr == "_make" and isinstance(c.func.value, ast.Name) and c.func.value.id in types \
+                            and len(c.args) == 1 and not c.keywords and isinstance(c.args[0], ast.Call) and ast.unparse(c.args[0].func) == "struct.unpack" \
+                            and c.args[0].args and isinstance(c.args[0].args[0], ast.Constant) and isinstance(c.args[0].args[0].value, str):
+                        fields = types[c.func.value.id]
+                        try:
+                            nvals = len(_struct.unpack(c.args[0].args[0].value, bytes(_struct.calcsize(c.args[0].args[0].value))))
+                        except _struct.error:
+                            continue
+                        if nvals != len(fields):
+                            continue
+                        srcs = ["%s = %s" % (", ".join("%s__%s" % (x, f_) for f_ in fields) + ("," if len(fields) == 1 else ""), ast.unparse(c.args[0]))]
+                    else:
+                        continue
+                    if any("%s__%s" % (x, f_) in own_names for f_ in fields):
+                        continue
+                    occ = [n for n in walk_own(fi.node) if isinstance(n, ast.Name) and n.id == x and n is not st.targets[0]]
+                    plan = []
+                    ok = True
+                    for n in occ:
+                        par = getattr(n, "_parent", None)
+                        if not isinstance(n.ctx, ast.Load):
+                            ok = False
+                        elif isinstance(par, ast.Attribute) and par.value is n and par.attr in fields and isinstance(par.ctx, ast.Load):
+                            plan.append(("attr", par, par.attr))
+                        elif isinstance(par, ast.Subscript) and par.value is n and isinstance(par.slice, ast.Constant) and isinstance(par.slice.value, int) \
+                                and 0 <= par.slice.value < len(fields) and isinstance(par.ctx, ast.Load):
+                            plan.append(("attr", par, fields[par.slice.value]))
+                        elif isinstance(par, ast.Starred) and isinstance(getattr(par, "_parent", None), ast.Call) and par in par._parent.args:
+                            plan.append(("star", par, None))
+                        else:
+                            ok = False
+                    if not ok:
+                        continue
+                    for kind, node, f_ in plan:
+                        if kind == "attr":
+                            _install(node, ast.parse("%s__%s" % (x, f_), mode="eval").body)
+                        else:
+                            call = node._parent
+                            k = [j for j, a_ in enumerate(call.args) if a_ is node][0]
+                            new_args = [ast.parse("%s__%s" % (x, f_), mode="eval").body for f_ in fields]
+                            for a_ in new_args:
+                                ast.copy_location(a_, node)
+                                a_._parent = call
+                            call.args[k:k + 1] = new_args
+                            _invalidate(call)
+                    new = [y for src in srcs for y in _fresh_stmt(src, st, owner)]
+                    idx = [j for j, s_ in enumerate(blk) if s_ is st][0]
+                    blk[idx:idx + 1] = new
+                    _invalidate(owner)
+                    done.setdefault(q, []).append(x)
+    return done
 
 
 def expand_struct_objects(repo, ref):
@@ -2661,8 +2813,16 @@ def _drop_self_assignments(fnode):
     """x = x for a local name x (what `return x` of an inlined helper becomes once its renamed local is merged back)"""
     for owner, field, blk in _blocks(fnode):
         if len(blk) > 1:
-            keep = [s_ for s_ in blk if not (isinstance(s_, ast.Assign) and len(s_.targets) == 1 and isinstance(s_.targets[0], ast.Name)
-                                             and isinstance(s_.value, ast.Name) and s_.value.id == s_.targets[0].id)]
+            def noop(s_):
+                if not (isinstance(s_, ast.Assign) and len(s_.targets) == 1):
+                    return False
+                t, v = s_.targets[0], s_.value
+                if isinstance(t, ast.Name) and isinstance(v, ast.Name) and v.id == t.id:
+                    return True
+                # a, b = (a, b)
+                return isinstance(t, (ast.Tuple, ast.List)) and isinstance(v, (ast.Tuple, ast.List)) and len(t.elts) == len(v.elts) \
+                    and all(isinstance(a_, ast.Name) and isinstance(b_, ast.Name) and a_.id == b_.id for a_, b_ in zip(t.elts, v.elts))
+            keep = [s_ for s_ in blk if not noop(s_)]
             if keep and len(keep) != len(blk):
                 blk[:] = keep
                 _invalidate(owner)
